@@ -80,7 +80,7 @@ def LaunchS(call): return N('expr', Launch(call))
 PREC = {
     'assign': 1, 'opassign': 1, 'send': 1, 'tern': 2, 'or': 3, 'and': 4,
     '==': 5, '!=': 5, '<': 6, '<=': 6, '>': 6, '>=': 6,
-    '+': 7, '-': 7, '*': 8, '/': 8, 'un': 9, 'recv': 9, 'call': 10,
+    '+': 7, '-': 7, '*': 8, '/': 8, 'un': 9, 'recv': 9, 'call': 10, 'lambda': 1,
 }
 
 
@@ -188,7 +188,7 @@ class Printer:
         k = n.k
         p = self.prec(n)
         need = p < ctx
-        extra = (not need) and self.parens and self.rng.random() < self.parens and k not in ('raw',)
+        extra = (not need) and self.parens and self.rng.random() < self.parens and k not in ('raw', 'self')
         if need or extra:
             self.w('(')
             self.gap()
